@@ -245,8 +245,8 @@ impl MT104 {
                     }
                     _ => {
                         // Unknown variant, try both
-                        instructing_party_tx = parser
-                            .parse_optional_variant_field::<Field50InstructingParty>("50")?;
+                        instructing_party_tx =
+                            parser.parse_optional_variant_field::<Field50InstructingParty>("50")?;
                     }
                 }
             }
